@@ -100,6 +100,38 @@ CLAIMS = {
              "peer from k-th frame (exhaustive in the thorough tier), give-up times, abort contents, follow-up transfer.",
         technique="Lean 4 byte-count induction over arbitrary surviving frames + per-record pass theorems; lossy-script correspondence; fault-enumeration oracle",
         design="§8 C06"),
+    'C13': dict(
+        text="Proof (Lean 4) about Model/Ca.lean: in every state but NORMAL send_message / send_pgn / send_request (any PGN but 0xEE00) raise and "
+             "emit nothing, the request for address claim goes out from 254; in NORMAL all three carry exactly the held address; over EVERY "
+             "history of claim-timer firings and received claims (any source, any NAME bytes — induction over the history) an operational CA "
+             "holds exactly the address it announced, a CA without address reports 254 and accepts nothing destination-specific; every frame "
+             "the claim machinery originates is an address-claimed frame from the announced / held / null address.",
+        note="Tie: lock-step correspondence of the real ControllerApplication (fake ECU recording calls) with the model on random histories; "
+             "oracle: real CA on a real ECU through claim histories, every entry point and service (Dm1, Dm11, Dm22, DM14/16), loss judged "
+             "from the bus. Handler atomicity (histories, not thread schedules).",
+        technique="Lean 4 invariant by induction over histories + guard theorems; lock-step correspondence; history oracle",
+        design="§8 C13"),
+    'C14': dict(
+        text="Proof (Lean 4): the three request bytes are the little-endian PGN and decode back for all 2^24 values; an operational CA's "
+             "send_request(0, pgn, dest) becomes ONE J1939-21 frame priority 6 | 0xEA | dest | own address; at a CA the request callbacks run "
+             "with exactly (sa, dest, pgn) iff the CA is operational AND owns dest (or dest is global) AND pgn is not 0xEE00, for 0xEE00 such a CA "
+             "answers with its address-claimed frame, every other CA does nothing; the J1939-21 layer passes a request on iff its destination is "
+             "global or locally accepted and never creates state or transmits.",
+        note="data_page = 0 for the request frame's own PGN (scope note in DESIGN §8 C14). Tie: correspondence (CA) + Dll21 correspondence; "
+             "oracle: requester and 1-3 responder CAs in every claim state on real stacks.",
+        technique="Lean 4 codec + decision-logic theorems over regenerated leaves and hand model; correspondence; dispatch oracle",
+        design="§8 C14"),
+    'C04': dict(
+        text="Proof (Lean 4), handler level for every CA state and every received claim: a claim for another address is ignored; a CA at `a` "
+             "keeps `a` and re-sends its claim against any higher NAME (so the lowest NAME never leaves), ignores its own NAME; against a lower "
+             "NAME a single-address CA goes cannot-claim announcing it from 254, an arbitrary-address-capable one announces a+1 and waits for a "
+             "veto, neither reports the contested address any more; claim progress (immediate range operational at once, veto range after one "
+             "250 ms period); the compared value is exactly the sender's 64-bit NAME (C15 round trip).  Partial: uniqueness at quiescence and "
+             "settling over all schedules/latencies (incl. 0) are established by the network oracle on real stacks, not yet by a Lean theorem.",
+        note="Proved for the code as repaired by fix D10 (state before send). Oracle: 2-4 CAs, NAMEs differing in one field at a time, AAC mix, "
+             "start/claim-delay grid around the veto window, latencies {0, 1, 5 ms}.",
+        technique="Lean 4 handler theorems over hand model with regenerated NAME codec; correspondence; network oracle incl. re-entrant delivery",
+        design="§8 C04"),
 }
 
 NOT_YET = {}
